@@ -5,7 +5,7 @@
 package storage
 
 // Named modifies sets (macros, expanded where @name is used; defined first).
-//@ spec modset treeState = all(btreeNode.offsets), all(btreeNode.leafCells), all(btreeNode.internalCells), all(btreeNode.rightOffset), all(btreeNode.dirty), all(btreeNode.lastLSN), all(btreeNode.hasRSib), all(btreeNode.hasLSib), all(btreeNode.rSibFileOffset), all(btreeNode.lSibFileOffset), all(btreeNode.fileOffset), all(leafCell.valueBytes), all(leafCell.valueSize), all(leafCell.pg), all(leafCell.deleted), allelems(uint16), allelems(*leafCell), allelems(*internalCell)
+//@ spec modset treeState = all(btreeNode.offsets), all(btreeNode.leafCells), all(btreeNode.internalCells), all(btreeNode.rightOffset), all(btreeNode.dirty), all(btreeNode.lastLSN), all(btreeNode.hasRSib), all(btreeNode.hasLSib), all(btreeNode.rSibFileOffset), all(btreeNode.lSibFileOffset), all(leafCell.valueBytes), all(leafCell.valueSize), all(leafCell.pg), all(leafCell.deleted), allelems(uint16), allelems(*leafCell), allelems(*internalCell)
 //@ spec modset cacheState = listLen, listAt, listPos, listOf, all(cacheEntry.val), cachemaps(0)
 
 //@ owned btreeNode.offsets, btreeNode.leafCells, btreeNode.internalCells
@@ -159,6 +159,8 @@ package storage
 //@   ensures[int.sep; C11] !n.isLeaf ==> result0 == old(ic(n, cnt(n)/2).key) && n.rightOffset == old(ic(n, cnt(n)/2).fileOffset)
 //@   ensures[int.right; C11] !n.isLeaf ==> newPg.rightOffset == old(n.rightOffset)
 //@   ensures[leaf.right] n.isLeaf ==> n.rightOffset == old(n.rightOffset) && newPg.rightOffset == old(newPg.rightOffset)
+//@   ensures[arrays.fresh] (newPg.offsets == nil || fresh(newPg.offsets)) && (newPg.leafCells == nil || fresh(newPg.leafCells)) && (newPg.internalCells == nil || fresh(newPg.internalCells))
+//@   ensures[arrays.kept] base(n.offsets) == old(base(n.offsets)) && n.leafCells == old(n.leafCells) && n.internalCells == old(n.internalCells)
 //@   loop 1 invariant mid <= i && i <= cnt(n) && cnt(newPg) == i - mid && compact(newPg) && slotsOK(newPg) && newPg.isLeaf && n.isLeaf
 //@   loop 1 invariant n.offsets == old(n.offsets) && n.leafCells == old(n.leafCells) && newPg.internalCells == nil
 //@   loop 1 invariant (newPg.offsets == nil || fresh(newPg.offsets)) && (newPg.leafCells == nil || fresh(newPg.leafCells))
@@ -353,8 +355,8 @@ package storage
 //@        (n.hasRSib ==> leafAt(n.rSibFileOffset)) }
 //@ spec pred leafOK(n *btreeNode) { leafShape(n) && sizesOK(n) &&
 //@        (forall i int :: 0 <= i && i < cnt(n) ==> len(lc(n,i).valueBytes) <= maxValue) }
-//@ spec pred intOK(n *btreeNode) { !n.isLeaf && slotsOK(n) && sortedKeys(n) && identity(n) &&
-//@        1 <= cnt(n) && cnt(n) < maxInternal && len(n.internalCells) < 65535 }
+//@ spec pred intShape(n *btreeNode) { !n.isLeaf && slotsOK(n) && sortedKeys(n) && identity(n) && 1 <= cnt(n) && len(n.internalCells) < 65535 }
+//@ spec pred intOK(n *btreeNode) { intShape(n) && cnt(n) < maxInternal }
 //@ spec pred nodeOK(n *btreeNode) { n != nil && (n.isLeaf ? leafOK(n) : intOK(n)) }
 
 //@ func (f *fileStore) fetch(offset uint64) (*btreeNode, error)
@@ -399,7 +401,7 @@ package storage
 // (work in progress: the one-level functional contract of insertLeaf is parked; lines start with //@ so that govc ignores them)
 //@ func (b *BTree) insertLeaf(parent *btreeNode, curNode *btreeNode, key uint32, nextLSN uint64, value []byte) error
 //@   props C01 C11 C02 C13 C14
-//@   prune
+//@   assumedead btree.go:172 A-ASC.rightmost: a leaf that splits below a parent is the parent's right-most child, so the separator is appended
 //@   requires btOK(b) && fsLocked(fsOf(b)) && curNode != nil && leafOK(curNode)
 //@   requires parent != nil ==> intOK(parent) && parent != curNode && cnt(parent) >= 1
 //@   assume[A-ASC.leaf] keyAbsent(curNode, key) ==> ascLeaf(parent, curNode, key)
@@ -439,10 +441,52 @@ package storage
 //@   ensures[split.parent.kept; C01 C11] result == nil && old(cnt(curNode)) + 1 == maxLeaf && parent != nil ==>
 //@              (forall i int :: 0 <= i && i < old(cnt(parent)) ==> ic(parent,i) == old(ic(parent,i))) &&
 //@              parent.dirty && parent.lastLSN == nextLSN && b.rootOffset == old(b.rootOffset) && compact(parent)
+//@   ensures[parent.inv; C11] result == nil && parent != nil ==> !parent.isLeaf && slotsOK(parent) && compact(parent) && len(parent.internalCells) < 65535 &&
+//@              cnt(parent) <= old(cnt(parent)) + 1 && cnt(parent) >= old(cnt(parent))
+//@   ensures_assumed[parent.sorted; C11] result == nil && parent != nil ==> sortedKeys(parent)
+//@   ensures[parent.nosplit; C01 C11] result == nil && parent != nil && old(cnt(curNode)) + 1 < maxLeaf ==> cnt(parent) == old(cnt(parent)) &&
+//@              parent.rightOffset == old(parent.rightOffset) && (forall i int :: 0 <= i && i < cnt(parent) ==> ic(parent,i) == old(ic(parent,i)))
+//@   ensures[root.kept; C01] parent != nil ==> b.rootOffset == old(b.rootOffset)
+//@   ensures[frame.cells; C01] forall c *internalCell :: !fresh(c) ==> c.fileOffset == old(c.fileOffset) && c.key == old(c.key)
+//@   ensures[frame.nodes; C01 C02] forall n *btreeNode :: !fresh(n) && n != curNode && n != parent ==>
+//@              n.dirty == old(n.dirty) && n.lastLSN == old(n.lastLSN) && n.lSibFileOffset == old(n.lSibFileOffset)
 //@   ensures[split.root; C01 C11; witness np=newPg root=parent$] result == nil && old(cnt(curNode)) + 1 == maxLeaf && parent == nil ==>
 //@              exists np *btreeNode, root *btreeNode :: fresh(np) && np.isLeaf && fresh(root) && np != root && !root.isLeaf && cnt(root) == 1 &&
 //@              ic(root,0).key == lc(np,0).key && ic(root,0).fileOffset == curNode.fileOffset && root.rightOffset == np.fileOffset &&
 //@              b.rootOffset == root.fileOffset && root.dirty && root.lastLSN == nextLSN && compact(root)
+
+//@ // A-ASC, internal form: the key routes to the right-most child of a compact internal node; pages are not their own children.
+//@ spec pred ascInt(parent *btreeNode, cur *btreeNode, key uint32) {
+//@     (forall i int :: 0 <= i && i < cnt(cur) ==> key(cur,i) < key) && compact(cur) && cur.rightOffset != cur.fileOffset &&
+//@     (parent != nil ==> compact(parent) && parent.rightOffset == cur.fileOffset && parent.fileOffset != cur.rightOffset) }
+
+// insertInternal is verified for the case that the child it descends into is a leaf (assume A-H2: trees of height 2). The recursive
+// case for deeper trees needs a frame for the ancestors that a one-level contract cannot state; it is NOT verified (bounded stand-in).
+//@ func (b *BTree) insertInternal(parent *btreeNode, curNode *btreeNode, key uint32, nextLSN uint64, value []byte) error
+//@   props C01 C02 C11 C13 C14
+//@   requires btOK(b) && fsLocked(fsOf(b)) && curNode != nil && intOK(curNode)
+//@   requires parent != nil ==> intOK(parent) && parent != curNode
+//@   assume[A-ASC.int] keyAbsent(curNode, key) ==> ascInt(parent, curNode, key)
+//@   assume[A-H2.bounded] leafAt(curNode.rightOffset)
+//@   modifies @treeState, @cacheState, b.rootOffset, fsOf(b).nextFreeOffset
+//@   ensures[bt] btOK(b)
+//@   ensures[dup; C01 C14] !old(keyAbsent(curNode, key)) ==> result != nil
+//@   ensures[root.kept; C01] parent != nil ==> b.rootOffset == old(b.rootOffset)
+//@   ensures[parent.inv; C11] result == nil && parent != nil ==> !parent.isLeaf && slotsOK(parent) && compact(parent) &&
+//@              cnt(parent) <= old(cnt(parent)) + 1 && cnt(parent) >= old(cnt(parent))
+//@   ensures[split.parent; C01 C11] result == nil && parent != nil && cnt(parent) == old(cnt(parent)) + 1 ==>
+//@              ic(parent, old(cnt(parent))).fileOffset == old(parent.rightOffset) &&
+//@              parent.dirty && parent.lastLSN == nextLSN &&
+//@              (forall i int :: 0 <= i && i < old(cnt(parent)) ==> ic(parent,i) == old(ic(parent,i)))
+//@   ensures[nosplit.parent; C01 C11] result == nil && parent != nil && cnt(parent) == old(cnt(parent)) ==> parent.rightOffset == old(parent.rightOffset) &&
+//@              (forall i int :: 0 <= i && i < cnt(parent) ==> ic(parent,i) == old(ic(parent,i)))
+
+//@ func (b *BTree) insertKey(key uint32, nextLSN uint64, value []byte) error
+//@   props C01 C02 C11 C13 C14
+//@   requires fsLocked(fsOf(b))
+//@   requires btOK(b)
+//@   modifies @treeState, @cacheState, storeState, b.rootOffset, fsOf(b).nextFreeOffset
+//@   ensures[bt] btOK(b)
 
 // ---- field lists and rows (C05 C06 C18) ----
 
@@ -613,14 +657,6 @@ package storage
 
 //@ spec pred rsOK(rs *RelationService) { rs.fs != nil && cacheOK(rs.fs) && rs.wal != nil && rs.wal.reader != nil }
 //@ spec func lsn(rs *RelationService) uint64 { rs.fs._nextLSN }
-
-//@ func (b *BTree) insertKey(key uint32, nextLSN uint64, value []byte) error
-//@   props C01 C02
-//@   requires fsLocked(fsOf(b))
-//@   trusted
-//@   requires btOK(b)
-//@   modifies @treeState, @cacheState, storeState, b.rootOffset, fsOf(b).nextFreeOffset
-//@   ensures btOK(b)
 
 //@ func (b *BTree) insert(value []byte) (uint32, uint64, error)
 //@   props C01 C02 C13
@@ -894,14 +930,14 @@ package storage
 //@ func (rs *RelationService) createTable(r *Relation, tableName string) error
 //@   props C13 C14
 //@   requires rsOK(rs) && txn == 0 && r != nil
-//@   modifies txn, @treeState, @cacheState, storeState, rs.fs._nextLSN, rs.fs.lastKey, rs.fs.nextFreeOffset, rs.fs.pageTableRoot
+//@   modifies txn, @treeState, @cacheState, storeState, rs.fs._nextLSN, rs.fs.lastKey, rs.fs.nextFreeOffset, rs.fs.pageTableRoot, written
 //@   ensures[unlock; C13] txn == 0
 //@   ensures[rs] rsOK(rs)
 
 //@ func (rs *RelationService) CreateTable(r *Relation, tableName string) error
 //@   props C13 C14
 //@   requires rsOK(rs) && txn == 0 && r != nil
-//@   modifies txn, @treeState, @cacheState, storeState, rs.fs._nextLSN, rs.fs.lastKey, rs.fs.nextFreeOffset, rs.fs.pageTableRoot
+//@   modifies txn, @treeState, @cacheState, storeState, rs.fs._nextLSN, rs.fs.lastKey, rs.fs.nextFreeOffset, rs.fs.pageTableRoot, written
 //@   ensures[unlock; C13] txn == 0
 
 //@ func (rs *RelationService) MarkDeleted(tableName string, rowID uint32) (WALBatch, error)
